@@ -21,6 +21,8 @@ set_option linter.all false
 
 open EPV EPV.Gen EPV.Spec EPV.Lemmas
 
+open Filter Topology
+
 namespace EPV.C01
 
 /-- the traced model has exactly the leaves the theorems below cover -/
@@ -93,5 +95,68 @@ theorem cog19_pre_energy (p : Cog19.P) (c a lam0 α β r t : ℝ) :
     (Cog19.L1.velocity_hasDerivAt_r p r t).deriv]
   simp only [epv_deriv, epv_leaf]
   ring
+
+/-! ### The returned (tree-level) fields away from the shock -/
+
+/-- behind the shock (r < R(t)) the returned fields are those of leaf 0 near the point -/
+theorem cog19_tree_post (p : Cog19.P) (r t : ℝ) (h : r < (-(p.gamma - 1)) * p.u0 * t / 2) :
+    AgreeNear (Cog19.density p) (Cog19.L0.density p) r t
+      ∧ AgreeNear (Cog19.velocity p) (Cog19.L0.velocity p) r t
+      ∧ AgreeNear (Cog19.temperature p) (Cog19.L0.temperature p) r t := by
+  have hx : ∀ᶠ x in 𝓝 r, Cog19.c0 p x t := by
+    simp only [epv_cond]; exact eventually_lt_nhds h
+  have hs : ∀ᶠ s in 𝓝 t, Cog19.c0 p r s := by
+    simp only [epv_cond]
+    have hc : ContinuousAt (fun s : ℝ => (-(p.gamma - 1)) * p.u0 * s / 2) t := by fun_prop
+    exact continuousAt_const.eventually_lt hc h
+  exact ⟨agreeNear_of_cond (fun x s hc => by simp only [epv_tree, if_pos hc]) hx hs,
+    agreeNear_of_cond (fun x s hc => by simp only [epv_tree, if_pos hc]) hx hs,
+    agreeNear_of_cond (fun x s hc => by simp only [epv_tree, if_pos hc]) hx hs⟩
+
+/-- ahead of the shock (r > R(t)) the returned fields are those of leaf 1 near the point -/
+theorem cog19_tree_pre (p : Cog19.P) (r t : ℝ) (h : (-(p.gamma - 1)) * p.u0 * t / 2 < r) :
+    AgreeNear (Cog19.density p) (Cog19.L1.density p) r t
+      ∧ AgreeNear (Cog19.velocity p) (Cog19.L1.velocity p) r t
+      ∧ AgreeNear (Cog19.temperature p) (Cog19.L1.temperature p) r t := by
+  have hx : ∀ᶠ x in 𝓝 r, ¬ Cog19.c0 p x t := by
+    simp only [epv_cond, not_lt]
+    exact (eventually_gt_nhds h).mono fun x hx => hx.le
+  have hs : ∀ᶠ s in 𝓝 t, ¬ Cog19.c0 p r s := by
+    simp only [epv_cond, not_lt]
+    have hc : ContinuousAt (fun s : ℝ => (-(p.gamma - 1)) * p.u0 * s / 2) t := by fun_prop
+    exact (hc.eventually_lt continuousAt_const h).mono fun s hs => hs.le
+  exact ⟨agreeNear_of_cond (c := fun x s => ¬ Cog19.c0 p x s) (fun x s hc => by simp only [epv_tree, if_neg hc]) hx hs,
+    agreeNear_of_cond (c := fun x s => ¬ Cog19.c0 p x s) (fun x s hc => by simp only [epv_tree, if_neg hc]) hx hs,
+    agreeNear_of_cond (c := fun x s => ¬ Cog19.c0 p x s) (fun x s hc => by simp only [epv_tree, if_neg hc]) hx hs⟩
+
+/-- mass balance of the returned fields at every point away from the shock -/
+theorem cog19_mass_tree (p : Cog19.P) (r t : ℝ) (hr : 0 < r) (hb : 0 < r - p.u0 * t)
+    (hsh : r ≠ (-(p.gamma - 1)) * p.u0 * t / 2) :
+    massRes (Cog19.density p) (Cog19.velocity p) (p.geometry - 1) r t = 0 := by
+  rcases lt_or_gt_of_ne hsh with h | h
+  · obtain ⟨h1, h2, h3⟩ := cog19_tree_post p r t h
+    rw [massRes_congr_near h1 h2]; exact cog19_post_mass p r t
+  · obtain ⟨h1, h2, h3⟩ := cog19_tree_pre p r t h
+    rw [massRes_congr_near h1 h2]; exact cog19_pre_mass p r t hr hb
+
+/-- momentum balance of the returned fields at every point away from the shock -/
+theorem cog19_momentum_tree (p : Cog19.P) (r t : ℝ) (hsh : r ≠ (-(p.gamma - 1)) * p.u0 * t / 2) :
+    momResT (Cog19.density p) (Cog19.velocity p) (Cog19.temperature p) p.Gamma r t = 0 := by
+  rcases lt_or_gt_of_ne hsh with h | h
+  · obtain ⟨h1, h2, h3⟩ := cog19_tree_post p r t h
+    rw [momResT_congr_near h1 h2 h3]; exact cog19_post_momentum p r t
+  · obtain ⟨h1, h2, h3⟩ := cog19_tree_pre p r t h
+    rw [momResT_congr_near h1 h2 h3]; exact cog19_pre_momentum p r t
+
+/-- energy balance (any conduction coefficients) of the returned fields away from the shock -/
+theorem cog19_energy_tree (p : Cog19.P) (c a lam0 α β r t : ℝ)
+    (hsh : r ≠ (-(p.gamma - 1)) * p.u0 * t / 2) :
+    energyResT (Cog19.density p) (Cog19.velocity p) (Cog19.temperature p)
+      p.Gamma p.gamma (p.geometry - 1) c a lam0 α β r t = 0 := by
+  rcases lt_or_gt_of_ne hsh with h | h
+  · obtain ⟨h1, h2, h3⟩ := cog19_tree_post p r t h
+    rw [energyResT_congr_near h1 h2 h3]; exact cog19_post_energy p c a lam0 α β r t
+  · obtain ⟨h1, h2, h3⟩ := cog19_tree_pre p r t h
+    rw [energyResT_congr_near h1 h2 h3]; exact cog19_pre_energy p c a lam0 α β r t
 
 end EPV.C01
